@@ -528,4 +528,81 @@ theorem evalForList_sim_step {σ : Sh} {fuel : Nat} (ih : SimSpec σ fuel) :
     exact SimAt.ite (fun _ => SimAt.pure hR4 rfl) (fun _ => SimAt.pure hR4 rfl)
   | _ => all_goals exact ih.evalForList _ _ _ _ _ _ hR4
 
+theorem evalBuiltin_sim_step {σ : Sh} {fuel : Nat} (ih : SimSpec σ fuel) : ∀ tk ps s t, StR σ s t →
+    SimAt σ (evalBuiltin (fuel + 1) tk ps) (evalBuiltin (fuel + 1) tk ps) s t (QO σ) := by
+  intro tk ps s t hR
+  unfold Grol.E.evalBuiltin
+  split
+  next minV varArg _ =>
+  refine SimAt.ite (fun _ => SimAt.pure hR rfl) (fun _ => ?_)
+  extract_lets jp2 jp1
+  have h2 : ∀ s0 t0, StR σ s0 t0 → SimAt σ (jp2 ()) (jp2 ()) s0 t0 (QO σ) := by
+    intro s0 t0 hR0
+    unfold jp2
+    refine SimAt.bind (ih.evalI _ _ _ hR0) ?_
+    rintro _ val0 s1 t1 hR1 rfl
+    refine SimAt.bind (sim_valueOf hR1 val0) ?_
+    rintro _ val s2 t2 hR2 ⟨rfl, _⟩
+    rw [ren_isError]
+    refine SimAt.ite (fun _ => SimAt.pure hR2 rfl) (fun _ => ?_)
+    split
+    · cases val with
+      | error m => exact SimAt.pure hR2 rfl
+      | _ => all_goals exact SimAt.pure hR2 rfl
+    · refine SimAt.bind (sim_valueOf hR2 val) ?_
+      rintro _ v s3 t3 hR3 ⟨rfl, _⟩
+      exact sim_objFirst hR3 v
+    · refine SimAt.bind (sim_valueOf hR2 val) ?_
+      rintro _ v s3 t3 hR3 ⟨rfl, _⟩
+      exact sim_objRest hR3 v
+    · refine SimAt.bind (sim_valueOf hR2 val) ?_
+      rintro _ v s3 t3 hR3 ⟨rfl, _⟩
+      dsimp only
+      rw [objLen_ren]
+      exact SimAt.ite (fun _ => SimAt.pure hR3 rfl) (fun _ => SimAt.pure hR3 rfl)
+    · exact SimAt.pure hR2 rfl
+  have h1 : ∀ s0 t0, StR σ s0 t0 → SimAt σ (jp1 ()) (jp1 ()) s0 t0 (QO σ) := by
+    intro s0 t0 hR0
+    unfold jp1
+    refine SimAt.ite (fun _ => ih.evalDelete _ _ _ hR0) (fun _ => ?_)
+    refine SimAt.ite (fun _ => ih.evalPrint _ _ _ _ _ _ hR0) (fun _ => ?_)
+    exact SimAt.ite (fun _ => SimAt.stop_bind hR0) (fun _ => h2 _ _ hR0)
+  exact SimAt.ite (fun _ => SimAt.stop_bind hR) (fun _ => h1 _ _ hR)
+
+theorem evalPrint_sim_step {σ : Sh} {fuel : Nat} (ih : SimSpec σ fuel) : ∀ tk ps first buf s t, StR σ s t →
+    SimAt σ (evalPrint (fuel + 1) tk ps first buf) (evalPrint (fuel + 1) tk ps first buf) s t (QO σ) := by
+  intro tk ps first buf s t hR
+  cases ps with
+  | nil =>
+    unfold Grol.E.evalPrint
+    dsimp only
+    refine SimAt.ite (fun _ => ?_) (fun _ => ?_)
+    · split
+      · exact SimAt.pure hR rfl
+      · exact SimAt.stop_bind hR
+    · exact SimAt.bind (sim_writeOut hR _) (fun _ _ s1 t1 hR1 _ => SimAt.pure hR1 rfl)
+  | cons p rest =>
+    unfold Grol.E.evalPrint
+    dsimp only
+    refine SimAt.bind (ih.evalI _ _ _ hR) ?_
+    rintro _ r s1 t1 hR1 rfl
+    rw [ren_isError]
+    refine SimAt.ite (fun _ => SimAt.pure hR1 rfl) (fun _ => ?_)
+    refine SimAt.bind (sim_valueOf hR1 r) ?_
+    rintro _ r' s2 t2 hR2 ⟨rfl, _⟩
+    have hins := inspect_ren σ r'
+    cases r' with
+    | str x =>
+      refine SimAt.bind_read (runM_pure _ s2) (runM_pure _ t2) ?_
+      exact ih.evalPrint _ _ _ _ _ _ hR2
+    | _ =>
+      all_goals
+        try simp only [ren] at hins
+        try simp only [ren]
+        try rw [hins]
+        refine SimAt.bind (Q := fun a b => a = b)
+          (SimAt.liftR hR2 (RelR.of_eq (f := id) (by cases inspect _ <;> rfl) (fun _ => rfl))) ?_
+        rintro piece _ s3 t3 hR3 rfl
+        exact ih.evalPrint _ _ _ _ _ _ hR3
+
 end Grol.R
